@@ -2,7 +2,7 @@
 from harness.common import Case, hx, unhx, Fields, toks_str
 from harness import gen as G
 
-KINDS = 'ms'
+KINDS = 'gms'
 RULE = ('locking scripts of all five address types for random 20/32-byte hashes and keys on all networks: bytes vs the standard templates; '
         "script-hash commitments (P2SH hash160, P2WSH sha256) and the two Script helpers on redeem/witness scripts from C02's generator "
         '(1..70000 bytes) vs the Spec computed from the script bytes; the helper output equals the locking script of the address created from '
